@@ -268,4 +268,201 @@ theorem insert_whole_on_ext [DecidableEq α] (null : α) (ss : List Nat) (sn sd 
   | true => rfl
   | false => simp only [Bool.false_eq_true, if_false]; rw [setSlices_toContent o h3 h5]
 
+/-! ### the `try` block, key by key -/
+
+section perkey
+variable [DecidableEq α]
+
+/-- one pass `for key in keys: self.<edit>(key)` over the per-key view: every listed key gets its own edit applied to its own
+    entry, no other key moves -/
+theorem pass_keys (f : κ → KeyDict α → Except PyErr (KeyDict α)) : ∀ (keys : List κ) (kc kc' : KContent κ α), keys.Nodup →
+    (forIn (m := Except PyErr) keys kc fun (key : κ) (r : KContent κ α) =>
+        (fun a => ForInStep.yield (r.set key a)) <$> f key (r.get key)) = .ok kc' →
+    (∀ k, k ∈ keys → f k (kc.get k) = .ok (kc'.get k)) ∧ (∀ k, k ∉ keys → kc'.get k = kc.get k)
+  | [], kc, kc', _, h => by
+    have : kc' = kc := by
+      have h' : (Except.ok kc : Except PyErr _) = .ok kc' := h
+      exact (Except.ok.inj h').symm
+    subst this
+    exact ⟨by simp, fun _ _ => rfl⟩
+  | key :: keys, kc, kc', hnd, h => by
+    rw [List.nodup_cons] at hnd
+    rw [List.forIn_cons] at h
+    cases hf : f key (kc.get key) with
+    | error e =>
+      rw [hf] at h
+      simp [Functor.map, Except.map, bind, Except.bind] at h
+    | ok a =>
+      rw [hf] at h
+      have h' : (forIn (m := Except PyErr) keys (kc.set key a) fun (key : κ) (r : KContent κ α) =>
+          (fun a => ForInStep.yield (r.set key a)) <$> f key (r.get key)) = .ok kc' := h
+      obtain ⟨ih1, ih2⟩ := pass_keys f keys (kc.set key a) kc' hnd.2 h'
+      constructor
+      · intro k hk
+        rcases List.mem_cons.mp hk with rfl | hm
+        · rw [hf, ih2 _ hnd.1]
+          show Except.ok a = Except.ok (dictGet (dictSet kc k a) k)
+          rw [dictGet_dictSet_self]
+        · have hne : k ≠ key := fun e => hnd.1 (e ▸ hm)
+          have := ih1 k hm
+          have hg : (kc.set key a).get k = kc.get k := dictGet_dictSet_other kc key k a hne
+          rw [hg] at this
+          exact this
+      · intro k hk
+        have hne : k ≠ key := fun e => hk (e ▸ List.mem_cons_self ..)
+        rw [ih2 k (fun hm => hk (List.mem_cons_of_mem _ hm))]
+        exact dictGet_dictSet_other kc key k a hne
+
+/-- the two passes of one round of `_insert` over the same keys: each listed key gets the second edit applied to the result
+    of the first -/
+theorem two_passes (f g : κ → KeyDict α → Except PyErr (KeyDict α)) (keys : List κ) (kc kc' : KContent κ α) (hnd : keys.Nodup)
+    (h : (do
+      let r1 ← forIn (m := Except PyErr) keys kc fun (key : κ) (r : KContent κ α) =>
+          (fun a => ForInStep.yield (r.set key a)) <$> f key (r.get key)
+      forIn keys r1 fun (key : κ) (r : KContent κ α) =>
+          (fun a => ForInStep.yield (r.set key a)) <$> g key (r.get key)) = .ok kc') :
+    (∀ k, k ∈ keys → (f k (kc.get k) >>= g k) = .ok (kc'.get k)) ∧ (∀ k, k ∉ keys → kc'.get k = kc.get k) := by
+  cases h1 : (forIn (m := Except PyErr) keys kc fun (key : κ) (r : KContent κ α) =>
+          (fun a => ForInStep.yield (r.set key a)) <$> f key (r.get key)) with
+  | error e =>
+    rw [h1] at h
+    simp [bind, Except.bind] at h
+  | ok r1 =>
+    rw [h1] at h
+    have h2 : (forIn (m := Except PyErr) keys r1 fun (key : κ) (r : KContent κ α) =>
+          (fun a => ForInStep.yield (r.set key a)) <$> g key (r.get key)) = .ok kc' := h
+    obtain ⟨a1, a2⟩ := pass_keys f keys kc r1 hnd h1
+    obtain ⟨b1, b2⟩ := pass_keys g keys r1 kc' hnd h2
+    constructor
+    · intro k hk
+      rw [a1 k hk]
+      exact b1 k hk
+    · intro k hk
+      rw [b2 k hk, a2 k hk]
+
+/-- rounds over the classifications of `other`, with the keys each round visits: when no key is visited twice, every visited
+    key gets the two edits of its round applied to the entry it had at the start, and no other key moves -/
+theorem rounds (f g : Cls → κ → KeyDict α → Except PyErr (KeyDict α)) (keysOf : Cls → List κ)
+    (body : Cls → KContent κ α → Except PyErr (ForInStep (KContent κ α)))
+    (hb : ∀ c kc, body c kc = ForInStep.yield <$> (do
+      let r1 ← forIn (m := Except PyErr) (keysOf c) kc fun (key : κ) (r : KContent κ α) =>
+          (fun a => ForInStep.yield (r.set key a)) <$> f c key (r.get key)
+      forIn (keysOf c) r1 fun (key : κ) (r : KContent κ α) =>
+          (fun a => ForInStep.yield (r.set key a)) <$> g c key (r.get key))) :
+    ∀ (l : List Cls) (kc kc' : KContent κ α), (l.flatMap keysOf).Nodup → forIn l kc body = .ok kc' →
+      (∀ c k, c ∈ l → k ∈ keysOf c → (f c k (kc.get k) >>= g c k) = .ok (kc'.get k)) ∧
+      (∀ k, (∀ c ∈ l, k ∉ keysOf c) → kc'.get k = kc.get k)
+  | [], kc, kc', _, h => by
+    have h' : (Except.ok kc : Except PyErr _) = .ok kc' := h
+    have := Except.ok.inj h'
+    subst this
+    exact ⟨by simp, fun _ _ => rfl⟩
+  | c :: l, kc, kc', hnd, h => by
+    rw [List.flatMap_cons, List.nodup_append] at hnd
+    obtain ⟨hn1, hn2, hdis⟩ := hnd
+    rw [List.forIn_cons, hb] at h
+    cases h1 : (do
+      let r1 ← forIn (m := Except PyErr) (keysOf c) kc fun (key : κ) (r : KContent κ α) =>
+          (fun a => ForInStep.yield (r.set key a)) <$> f c key (r.get key)
+      forIn (keysOf c) r1 fun (key : κ) (r : KContent κ α) =>
+          (fun a => ForInStep.yield (r.set key a)) <$> g c key (r.get key)) with
+    | error e =>
+      rw [h1] at h
+      simp [Functor.map, Except.map, bind, Except.bind] at h
+    | ok kc1 =>
+      rw [h1] at h
+      have h2 : forIn l kc1 body = .ok kc' := h
+      obtain ⟨a1, a2⟩ := two_passes (f c) (g c) (keysOf c) kc kc1 hn1 h1
+      obtain ⟨b1, b2⟩ := rounds f g keysOf body hb l kc1 kc' hn2 h2
+      constructor
+      · intro c' k hc' hk
+        rcases List.mem_cons.mp hc' with rfl | hm
+        · have hnot : ∀ c'' ∈ l, k ∉ keysOf c'' := fun c'' hc'' hk'' =>
+            hdis k hk k (List.mem_flatMap.mpr ⟨c'', hc'', hk''⟩) rfl
+          rw [b2 k hnot]
+          exact a1 k hk
+        · have hnot : k ∉ keysOf c := fun hk' => hdis k hk' k (List.mem_flatMap.mpr ⟨c', hm, hk⟩) rfl
+          have := b1 c' k hm hk
+          rw [a2 k hnot] at this
+          exact this
+      · intro k hk
+        rw [b2 k (fun c' hc' => hk c' (List.mem_cons_of_mem _ hc')), a2 k (hk c (List.mem_cons_self ..))]
+
+/-- the keys one round of `_insert` visits: those of the classification dictionary of `other`, and in the round of the global
+    constants also the keys only `self` has -/
+def roundKeys (oc : Content κ α) (missing : List κ) (c : Cls) : List κ :=
+  (dictGet oc c).map (·.1) ++ (if c = gconst then missing else [])
+
+/-- the reclassification of one key towards the classification `c` of the round -/
+def keyRecl (null : α) (ss : List Nat) (sn : Option Nat) (bases : List String) (c : Cls) (k : κ) (d : KeyDict α) :
+    Except PyErr (KeyDict α) := Py.reclassify null ss sn d bases c
+
+/-- the insertion for the axis, with what `other` holds for the key -/
+def keyIns (null : α) (ss : List Nat) (sn sd : Option Nat) (bases : List String) (os : List Nat) (on : Option Nat)
+    (valid : List Cls) (oc : Content κ α) (dim : Nat) (c : Cls) (k : κ) (d : KeyDict α) : Except PyErr (KeyDict α) :=
+  Py.insert_dispatch null ss sn d sd bases os on
+    (match Content.valuesAndClass valid oc k with | some p_ => p_.2 | none => [null])
+    ((Content.valuesAndClass valid oc k).map (·.1)) dim
+
+/-- what `_insert` does to one key in the round of classification `c`: the reclassification towards `c`, then the insertion
+    for the axis, with what `other` holds for the key -/
+def keyStep (null : α) (ss : List Nat) (sn sd : Option Nat) (bases : List String) (os : List Nat) (on : Option Nat)
+    (valid : List Cls) (oc : Content κ α) (dim : Nat) (c : Cls) (k : κ) (d : KeyDict α) : Except PyErr (KeyDict α) :=
+  keyRecl null ss sn bases c k d >>= keyIns null ss sn sd bases os on valid oc dim c k
+
+/-- **the `try` block of `_insert` as written in dcmmeta.py treats keys independently**: when it ends normally, every key of a
+    classification dictionary of `other` — and, in the round of the global constants, every key only `self` has — holds what
+    the reclassification followed by the insertion make of *its own* entry in `self` and *its own* values in `other`, and every
+    other key of `self` holds what it held; provided no key is listed twice (keys are unique in `other` and in `self`) -/
+theorem insert_try_per_key (null : α) (ss : List Nat) (sn sd : Option Nat) (bases : List String) (kc0 kc' : KContent κ α)
+    (os : List Nat) (on : Option Nat) (oc : Content κ α) (dim : Nat) (valid sv : List Cls) (oks : List κ)
+    (hv : Py.get_valid_classes os = .ok valid) (hsv : Py.get_valid_classes ss = .ok sv) (hk : Py.get_keys os oc = .ok oks)
+    (hnd : (valid.flatMap (roundKeys oc ((KContent.keys sv kc0).filter fun key => !oks.contains key))).Nodup)
+    (h : Py.insert_try null ss sn sd bases kc0 os on oc dim = .ok kc') :
+    (∀ c k, c ∈ valid → k ∈ roundKeys oc ((KContent.keys sv kc0).filter fun key => !oks.contains key) c →
+        keyStep null ss sn sd bases os on valid oc dim c k (kc0.get k) = .ok (kc'.get k)) ∧
+    (∀ k, (∀ c ∈ valid, k ∉ roundKeys oc ((KContent.keys sv kc0).filter fun key => !oks.contains key) c) →
+        kc'.get k = kc0.get k) := by
+  unfold Py.insert_try at h
+  simp only [hv, hsv, hk, ok_bind', bind_pure_comp] at h
+  have h' := h
+  rw [bind_pure] at h'
+  generalize hbd : (fun (other_classes : Cls) (__s : KContent κ α) => _) = body at h'
+  have hb : ∀ c kc, body c kc = ForInStep.yield <$> (do
+      let r1 ← forIn (m := Except PyErr) (roundKeys oc ((KContent.keys sv kc0).filter fun key => !oks.contains key) c) kc
+        fun (key : κ) (r : KContent κ α) =>
+          (fun a => ForInStep.yield (r.set key a)) <$> keyRecl null ss sn bases c key (r.get key)
+      forIn (roundKeys oc ((KContent.keys sv kc0).filter fun key => !oks.contains key) c) r1 fun (key : κ) (r : KContent κ α) =>
+          (fun a => ForInStep.yield (r.set key a)) <$> keyIns null ss sn sd bases os on valid oc dim c key (r.get key)) := by
+    intro c kc
+    rw [← hbd]
+    unfold keyRecl keyIns
+    by_cases hc : c = gconst
+    · subst hc
+      have hgg : (gconst == gconst) = true := rfl
+      simp only [roundKeys, if_true, hgg, map_bind]
+      rfl
+    · have hc' : (c == gconst) = false := by simpa using hc
+      simp only [roundKeys, hc, hc', if_false, List.append_nil, Bool.false_eq_true, map_bind]
+      rfl
+  unfold keyStep
+  exact rounds (keyRecl null ss sn bases) (keyIns null ss sn sd bases os on valid oc dim)
+    (roundKeys oc ((KContent.keys sv kc0).filter fun key => !oks.contains key)) body hb valid kc0 kc' hnd h'
+
+end perkey
+
+/-! the translated method computes (tests, not theorems): a slice merge of two 3-D extensions — `a` constant and equal, `b`
+    constant and different (becomes per slice), `m` only in `self` (other reads None) — and the hypotheses of the theorems above
+    hold for this input -/
+section tests
+def tSelf : KContent String Nat := [("a", [(gconst, [1])]), ("b", [(gconst, [2])]), ("m", [(gconst, [3])])]
+def tOther : Content String Nat := [(gconst, [("a", [1]), ("b", [5])]), (gslices, [("s", [7])])]
+
+example : Py.insert_whole (0 : Nat) [2, 2, 1] (some 1) (some 2) ["global"] tSelf [2, 2, 1] (some 1) tOther true 2
+    = .ok (.ok [("a", [(gconst, [1])]), ("b", [(gslices, [2, 5])]), ("m", [(gslices, [3, 0])]), ("s", [(gslices, [0, 7])])], tOther) := by rfl
+example : Py.insert_whole (0 : Nat) [2, 2, 1] (some 1) (some 2) ["global"] tSelf [2, 2, 1] (some 1) tOther false 2
+    = .ok (.ok [("a", [(gconst, [1])]), ("b", [(gslices, [2, 5])]), ("m", [(gslices, [3, 0])])], tOther) := by rfl
+example : (([gconst, gslices] : List Cls).flatMap (roundKeys tOther ["m"])).Nodup := by decide
+end tests
+
 end Src
